@@ -74,6 +74,12 @@ claim("C09", "model-based property testing of idle/expiry histories (rapid) agai
       "a request arriving sooner is served as the session user and refreshes the stamp; logins that fire the auth event stamp the clock.",
       TRUST)
 
+claim("C10", "model-free invariant checking over rapid-generated histories that reach every session-state class, then logout with every method",
+      WM + "prefix histories reach logged-in, half-authed, mid-2FA-login, mid-2FA-setup, mid-OAuth2, e-mail-verify and expired states (histogrammed in the evidence), then /logout is sent with each HTTP method under each LogoutMethod and whitelist. "
+      "Oracle: configured method -> afterwards the session holds only whitelisted keys (values kept) plus the flash the logout redirect writes, the remember cookie is gone, and an immediate follow-up request to a protected route is refused; "
+      "any other method -> 404/405 and client state untouched (modulo the remember/expire middlewares that run before routing).",
+      TRUST)
+
 NOT_YET = "check not built yet in this round (claimed in DESIGN.md; will be claimed once its check is committed)"
 
 def main():
